@@ -322,7 +322,8 @@ def r4_reanimation(ctx: Ctx, d: Driver) -> None:
             if dc is None:
                 continue
             for slot in slots:
-                stores = [s for s in walk_local(dc.node) if isinstance(s, ast.Assign) and norm(s.targets[0]) == f'obj.{slot}']
+                stores = [s for s in walk_local(dc.node) if isinstance(s, ast.Assign) and isinstance(s.targets[0], ast.Attribute)
+                          and s.targets[0].attr == slot and isinstance(s.targets[0].value, ast.Name) and s.targets[0].value.id != dc.self_name]
                 if not stores:
                     ctx.bad(R, dc, dc.node, f'__deepcopy__ does not set {slot}', key=f'{c.name}.__deepcopy__:{slot}')
                     continue
